@@ -13,7 +13,7 @@ use crate::oracle::eval::{Interp, Outcome};
 
 pub struct C01;
 
-pub const GAS: usize = 1_000_000_000_000;
+pub const GAS: usize = 300_000_000;
 
 /// Entry arguments as runner `Arg`s (u256 = low, high; negatives as P - |x|).
 pub fn to_args(p: &Program, vals: &[BigInt]) -> Vec<Arg> {
@@ -154,6 +154,7 @@ impl Prop for C01 {
         let cases = ctx.tier.pick(24, 320);
         let mut db = FrontCfg::default_cfg().new_db(Plugins::Default);
         let mut n = 0u64;
+        ctx.shrink_iters = 150;
         ctx.minimize = Some(Box::new(|f| {
             // Source-level ddmin only for compiler failures (no reference outcome is needed).
             if !(f.sig.starts_with("compiler-panic") || f.sig == "compile-error") {
